@@ -4,8 +4,7 @@ Open Scope Z_scope.
 
 Record case := mk {
   n : nat;                         (* cube ndim *)
-  shape : list Z;                  (* shape seen by the wcs under study: the cube's, or for extra coords the virtual
-                                      shape of its own pixel dimensions (array order = reversed pixel order) *)
+  shape : list Z;                  (* the cube's shape *)
   pm : option (list nat);          (* Some mapping for wcs = extra_coords *)
   A : list (list Q); b : list Q;   (* the linear wcs *)
   types : list string; comps : list Z;
@@ -35,7 +34,10 @@ Definition agree (c : case) : bool :=
   | Ok ws =>
       let corr := corr_of (A c) in
       match vimpl c with
-      | Some v => list_eqb arr_eqb v (map (fun w => let '(sh, vals) := world_array (linW (A c) (b c)) corr (shape c) (corners c) w in (w, sh, vals))
+      | Some v => list_eqb arr_eqb v (map (fun w => let '(sh, vals) := match pm c with
+                                                                         | Some m => world_array_ec (linW (A c) (b c)) corr (shape c) m (corners c) w
+                                                                         | None => world_array (linW (A c) (b c)) corr (shape c) (corners c) w
+                                                                         end in (w, sh, vals))
                                           (values_order ws))
       | None => false
       end
